@@ -79,3 +79,10 @@ func Mix(a ...uint64) uint64 {
 	}
 	return h
 }
+
+// Shuffle permutes n items in place (Fisher-Yates).
+func (r *Rand) Shuffle(n int, swap func(i, j int)) {
+	for i := n - 1; i > 0; i-- {
+		swap(i, r.Intn(i+1))
+	}
+}
